@@ -34,8 +34,11 @@ RULE = ('cases = (backend, <= 8 message specs, expunge-hidden flag, a search '
         'message; distinct by case hash.')
 ASSUMPTIONS = ['string arguments are whole vocabulary words, so every '
                'RFC-conforming notion of "contains" agrees',
-               'TZ=UTC and +0000 dates: "disregarding time zone" is '
-               'unambiguous; every message has a valid Date: header',
+               'TZ=UTC; "disregarding time and timezone" is taken as "the '
+               'day as written": Date: headers (both backends) and APPEND '
+               'date-times (dict; maildir stores a timestamp, so +0000 '
+               'there) carry zones in which the UTC day differs; every '
+               'message has a valid Date: header',
                'NOT NOT k is not generated (pymap answers BAD: a grammar '
                'gap, not a wrong result)',
                'a hidden expunged message may or may not be reported']
@@ -48,6 +51,8 @@ DAYS = [(2020, 1, 31), (2020, 2, 1), (2020, 2, 2), (2020, 3, 1),
 TIMES = ['00:00:00', '23:59:59', '12:00:00', '00:00:01']
 MON = ['Jan', 'Feb', 'Mar', 'Apr', 'May', 'Jun', 'Jul', 'Aug', 'Sep', 'Oct',
        'Nov', 'Dec']
+OFFS = ['+0000', '+0000', '+0000', '-0500', '+0900', '+1400', '-1200',
+        '+0530']
 SYSF = ['\\Seen', '\\Flagged', '\\Deleted', '\\Answered', '\\Draft']
 SIZES = [0, 40, 100, 101, 300]
 
@@ -95,9 +100,14 @@ def _build(spec: list[int], vid: int) -> dict[str, Any]:
         hdrs['Bcc'] = VOCAB[(spec[8] // 3) % 12] + '@example.com'
     if spec[9] % 2:
         hdrs['X-Custom'] = VOCAB[spec[9] % 12]
+    # "disregarding time and timezone": the day as written counts, whatever
+    # the zone - so zones are generated in which the UTC day differs
+    soff = OFFS[(spec[4] // 4) % len(OFFS)]
+    m['ioff'] = OFFS[(spec[2] // 20) % len(OFFS)]
     dt = datetime(*m['sday'], *[int(x) for x in stime.split(':')],
                   tzinfo=timezone.utc)
-    hdrs['Date'] = dt.strftime('%a, %d %b %Y %H:%M:%S +0000')
+    hdrs['Date'] = dt.strftime('%a, %d %b %Y %H:%M:%S ') + soff
+    m['zoned'] = soff != '+0000'
     hdrs['X-Vid'] = 'v%d' % vid
     body = VOCAB[spec[9] % 12] + ' ' + VOCAB[(spec[9] // 12) % 12] + '\r\n'
     raw = ''.join(f'{k}: {v}\r\n' for k, v in hdrs.items()) + '\r\n' + body
@@ -262,8 +272,13 @@ def run_case(case: dict[str, Any]) -> CaseOut:
         setup.login('alice')
 
         def append(cl: Client, m: dict[str, Any]) -> None:
-            dt = '%02d-%s-%d %s +0000' % (m['iday'][2], MON[m['iday'][1] - 1],
-                                          m['iday'][0], m['itime'])
+            # the maildir backend keeps the internal date as a timestamp (the
+            # written zone is not stored), so zones only on dict
+            ioff = m['ioff'] if case['backend'] == 'dict' else '+0000'
+            if ioff != '+0000' or m['zoned']:
+                out.label('date-in-non-utc-zone')
+            dt = '%02d-%s-%d %s %s' % (m['iday'][2], MON[m['iday'][1] - 1],
+                                       m['iday'][0], m['itime'], ioff)
             fl = ' '.join(sorted(m['flags']))
             res = cl.command(b'APPEND INBOX (%s) "%s" {%d+}' % (
                 fl.encode(), dt.encode(), len(m['raw'])), m['raw'])
